@@ -20,6 +20,7 @@ LifeVerdict(ev) ==
 
 Judge(ev) ==
     IF ev.op = "reset" THEN <<>>
+    ELSE IF ev.op = "trap" THEN <<"crash">>        \* the process died inside a call (tools/vlib.py writes the trap event)
     ELSE IF ~Pre(ev.op, ev.o, ev.x, ev.pre) THEN <<"harness-pre">>
     ELSE LET ef == Eff(ev.op, ev.o, ev.x, ev.pre, ev.elem) IN
          (IF ev.post = ef.st THEN <<>> ELSE <<"post">>)
